@@ -158,5 +158,24 @@ func TestC12Sweep(t *testing.T) {
 			cases = append(cases, c12Case{Kind: "threshold", S: s})
 		}
 	}
+	if lo <= 1 {
+		// perfectly uniform lists (exactly s/10 values in every interval: V is exactly 0) of every length 10, 20, ..., 6000, and the
+		// same with one value moved (V = 20/s)
+		for s := 10; s <= 6000; s += 10 {
+			qs := make([]float64, 0, s)
+			r := gen.NewRng(uint64(s))
+			for b := 0; b < 10; b++ {
+				for i := 0; i < s/10; i++ {
+					qs = append(qs, (float64(b)+r.Float()*0.999)/10)
+				}
+			}
+			cases = append(cases, c12Case{Kind: "uniformity", Qs: qs, Perm: uint64(s)})
+			if s%50 == 0 {
+				q2 := append([]float64{}, qs...)
+				q2[0] = 0.95
+				cases = append(cases, c12Case{Kind: "uniformity", Qs: q2, Perm: uint64(s + 1)})
+			}
+		}
+	}
 	enumerate(t, "C12", cases, checkC12)
 }
